@@ -268,33 +268,60 @@ structure Sim (α : Type) where
   err : Nat            -- number of `reb_simulation_error` calls so far
 deriving Repr
 
+/-- source-level variants of `reb_simulation_remove_particle` that leave the C13 statement
+    untouched (order of the guards, `N_active` bookkeeping).  They are *extracted from
+    particle.c* by rv/c13.py on every run and handed to the driver, so that the model follows
+    the code that exists; every theorem of RV/Props/C13.lean holds for all variants. -/
+structure RmVariant where
+  rangeFirst : Bool            -- the index range check precedes the `N==1` shortcut
+  lastResetsNActive : Bool     -- `N==1`: `if (N_active>0) N_active = 0`
+  lastDeletesTree : Bool       -- `N==1`: `reb_tree_delete(r)`
+  sortedTreeErrFirst : Bool    -- keep_sorted + tree: error returned *before* the array is shifted
+  unsortedClampNActive : Bool  -- unsorted: `if (N_active > N) N_active = N`
+deriving Repr, Inhabited
+
+/-- the variant of the pinned tree (d4648a4) -/
+def RmVariant.pinned : RmVariant := ⟨false, false, false, false, false⟩
+
 /-- `reb_simulation_remove_particle` (particle.c:336-446), returns the new state and the C
     return value.  `flag` is `particles[index].y = nan("")`.  Not modelled: the
     `dcrit`/`encounter_map`/`current_Ks` bookkeeping of the hybrid integrators and
     `free_particle_ap`. -/
-def removeParticle {α : Type} (flag : α → α) (s : Sim α) (index : Int) (keepSorted : Bool) :
-    Sim α × Bool :=
+def removeParticle {α : Type} (v : RmVariant) (flag : α → α) (s : Sim α) (index : Int)
+    (keepSorted : Bool) : Sim α × Bool :=
   let ks := keepSorted || s.hybrid
   let N : Int := s.ps.length
-  if N == 1 then
-    ({ s with ps := [] }, true)                       -- `r->N = 0; … return 1;` whatever `index`
-  else if index ≥ N || index < 0 then
+  let oor := index ≥ N || index < 0
+  if v.rangeFirst && oor then
+    ({ s with err := s.err + 1 }, false)
+  else if N == 1 then
+    -- `r->N = 0; … return 1;` whatever `index` (when the range check comes later)
+    ({ s with ps := []
+              nActive := if v.lastResetsNActive && s.nActive > 0 then 0 else s.nActive
+              tree := if v.lastDeletesTree then false else s.tree }, true)
+  else if oor then
     ({ s with err := s.err + 1 }, false)
   else if s.nVar != 0 then
     ({ s with err := s.err + 1 }, false)
   else
     let i := index.toNat
     if ks then
-      let na := if index < s.nActive then s.nActive - 1 else s.nActive
-      let s' := { s with ps := s.ps.eraseIdx i, nActive := na }    -- N--, shift down
-      if s.tree then ({ s' with err := s'.err + 1 }, false)        -- error *after* the mutation
-      else (s', true)
+      if v.sortedTreeErrFirst && s.tree then ({ s with err := s.err + 1 }, false)
+      else
+        let na := if index < s.nActive then s.nActive - 1 else s.nActive
+        let s' := { s with ps := s.ps.eraseIdx i, nActive := na }    -- N--, shift down
+        if s.tree then ({ s' with err := s'.err + 1 }, false)        -- error *after* the mutation
+        else (s', true)
     else if s.tree then
       ({ s with ps := s.ps.modify i flag }, true)                  -- only flagged
     else
       match s.ps.getLast? with
       | none => (s, false)                                         -- unreachable (N ≥ 2)
-      | some l => ({ s with ps := (s.ps.set i l).dropLast }, true) -- N--; p[index] = p[N]
+      | some l =>                                                  -- N--; p[index] = p[N]
+        let newN : Int := N - 1
+        ({ s with ps := (s.ps.set i l).dropLast
+                  nActive := if v.unsortedClampNActive && s.nActive > newN then newN else s.nActive },
+         true)
 
 section driver
 variable {α G : Type}
@@ -327,9 +354,9 @@ def lookup (s : Sim α) (p : Int) : Option α := if p < 0 then none else s.ps[p.
 /-- removal of `idx` requested by the resolver + fix-up of the remaining entries
     (either half of collision.c:394-485).  `cur` is the `p2` of the current collision, which
     the `outcome & 1` half also fixes (408-417); the `outcome & 2` half ignores the result. -/
-def removeAndFix (flag : α → α) (ks : Bool) (s : Sim α) (idx : Int) (cur : Int)
+def removeAndFix (v : RmVariant) (flag : α → α) (ks : Bool) (s : Sim α) (idx : Int) (cur : Int)
     (rest : List (Coll G)) : Sim α × Int × List (Coll G) :=
-  let (s', removed) := removeParticle flag s idx ks
+  let (s', removed) := removeParticle v flag s idx ks
   if removed then
     if s'.tree then
       (s', cur, rest.map (voidIfNames idx))
@@ -341,32 +368,32 @@ def removeAndFix (flag : α → α) (ks : Bool) (s : Sim α) (idx : Int) (cur : 
   else (s', cur, rest)
 
 /-- one iteration of the loop collision.c:386-487 on entry `c`, `rest` = the later entries -/
-def processOne (flag : α → α) (resolve : Sim α → Coll G → Sim α × Nat) (ks : Bool)
+def processOne (v : RmVariant) (flag : α → α) (resolve : Sim α → Coll G → Sim α × Nat) (ks : Bool)
     (s : Sim α) (c : Coll G) (rest : List (Coll G)) :
     Sim α × List (Coll G) × Option (Call α G) :=
   if c.p1 != -1 && c.p2 != -1 then
     let (s1, outcome) := resolve s c
     let call : Call α G := ⟨c, lookup s c.p1, lookup s c.p2, outcome⟩
     let (s2, p2, rest2) :=
-      if outcome &&& 1 != 0 then removeAndFix flag ks s1 c.p1 c.p2 rest
+      if outcome &&& 1 != 0 then removeAndFix v flag ks s1 c.p1 c.p2 rest
       else (s1, c.p2, rest)
     let (s3, rest3) :=
       if outcome &&& 2 != 0 then
-        let (s', _, r') := removeAndFix flag ks s2 p2 p2 rest2
+        let (s', _, r') := removeAndFix v flag ks s2 p2 p2 rest2
         (s', r')
       else (s2, rest2)
     (s3, rest3, some call)
   else (s, rest, none)
 
-theorem removeAndFix_length (flag : α → α) (ks : Bool) (s : Sim α) (idx cur : Int)
-    (rest : List (Coll G)) : (removeAndFix flag ks s idx cur rest).2.2.length = rest.length := by
+theorem removeAndFix_length (v : RmVariant) (flag : α → α) (ks : Bool) (s : Sim α) (idx cur : Int)
+    (rest : List (Coll G)) : (removeAndFix v flag ks s idx cur rest).2.2.length = rest.length := by
   unfold removeAndFix
   split
   split <;> (try split) <;> simp
 
-theorem processOne_length (flag : α → α) (resolve : Sim α → Coll G → Sim α × Nat) (ks : Bool)
-    (s : Sim α) (c : Coll G) (rest : List (Coll G)) :
-    (processOne flag resolve ks s c rest).2.1.length = rest.length := by
+theorem processOne_length (v : RmVariant) (flag : α → α) (resolve : Sim α → Coll G → Sim α × Nat)
+    (ks : Bool) (s : Sim α) (c : Coll G) (rest : List (Coll G)) :
+    (processOne v flag resolve ks s c rest).2.1.length = rest.length := by
   unfold processOne
   split
   · dsimp only
@@ -374,12 +401,12 @@ theorem processOne_length (flag : α → α) (resolve : Sim α → Coll G → Si
   · rfl
 
 /-- the loop collision.c:386-487; returns the final state and the calls made -/
-def processLoop (flag : α → α) (resolve : Sim α → Coll G → Sim α × Nat) (ks : Bool) :
-    Sim α → List (Coll G) → Sim α × List (Call α G)
+def processLoop (v : RmVariant) (flag : α → α) (resolve : Sim α → Coll G → Sim α × Nat)
+    (ks : Bool) : Sim α → List (Coll G) → Sim α × List (Call α G)
   | s, [] => (s, [])
   | s, c :: rest =>
-    let r := processOne flag resolve ks s c rest
-    let (sf, calls) := processLoop flag resolve ks r.1 r.2.1
+    let r := processOne v flag resolve ks s c rest
+    let (sf, calls) := processLoop v flag resolve ks r.1 r.2.1
     (sf, match r.2.2 with | some k => k :: calls | none => calls)
 termination_by _ l => l.length
 decreasing_by
@@ -464,15 +491,19 @@ def hsVn (st ct sp cp : K) (q : Rel K) : K :=
   let vy21n := ct * q.vy21 + st * q.vz21
   cp * q.vx21 + sp * vy21n
 
-/-- `dvx2` after the `minimum_collision_velocity` clamp (collision.c:716-723);
-    `rr = sqrt(x21²+y21²+z21²)`, `mcv = r->minimum_collision_velocity` -/
-def hsDvx2 (eps mcv rr vn : K) (p1 p2 : Part K) : K :=
-  let dvx2 := (-(Scalar.one + eps)) * vn
+/-- `mindv` (collision.c:717-722); `rr = sqrt(x21²+y21²+z21²)`,
+    `mcv = r->minimum_collision_velocity` -/
+def hsMindv (mcv rr : K) (p1 p2 : Part K) : K :=
   let minr := if gt p1.r p2.r then p2.r else p1.r
   let maxr := if ScalarO.lt p1.r p2.r then p2.r else p1.r
   let mindv := minr * mcv
   let mindv := mindv * (Scalar.one - (rr - maxr)/minr)
-  let mindv := if gt mindv (maxr*mcv) then maxr*mcv else mindv
+  if gt mindv (maxr*mcv) then maxr*mcv else mindv
+
+/-- `dvx2` after the `minimum_collision_velocity` clamp (collision.c:716-723) -/
+def hsDvx2 (eps mcv rr vn : K) (p1 p2 : Part K) : K :=
+  let dvx2 := (-(Scalar.one + eps)) * vn
+  let mindv := hsMindv mcv rr p1 p2
   if ScalarO.lt dvx2 mindv then mindv else dvx2
 
 /-- velocity update of the pair for a given impulse `dvx2` along the axis with direction
